@@ -34,12 +34,14 @@ Theorem C19_svg_shows_what_was_drawn : forall (fuel : nat) (l : list cmd) (st : 
 Proof. intros fuel l. exact (shows_what_was_drawn cur fuel (program l)). Qed.
 Print Assumptions C19_svg_shows_what_was_drawn.
 
-(* the model in force against the INTENDED meaning; the guard excludes exactly
-   the calls the remaining deviations are about: no ellipse, no text *)
+(* the model in force against the INTENDED meaning ([intended b]: every switch
+   about what is shown is on; b says which grid loop computes the positions —
+   the one the model in force runs); the guard excludes exactly the calls the
+   remaining deviations are about: no ellipse, no text *)
 Theorem C19_svg_shows_what_was_drawn_guarded : forall (fuel : nat) (l : list cmd) (st : state),
   run cur fuel pre_init (program l) = Some st ->
   forallb no_dev l = true ->
-  spec all fuel (program l) = Some (flatten (render cur st)).
+  spec (intended (fx_gridn_bound cur)) fuel (program l) = Some (flatten (render cur st)).
 Proof. intros fuel l st. exact (shows_what_was_drawn_guarded cur fuel l st eq_refl). Qed.
 Print Assumptions C19_svg_shows_what_was_drawn_guarded.
 
@@ -79,38 +81,71 @@ Theorem C19_shape_count : forall (fx : fixes) (fuel : nat) (l : list cmd) (kk : 
 Proof. exact spec_count. Qed.
 Print Assumptions C19_shape_count.
 
-(* ---- gridn ---- *)
-(* gridnFunc in force: a unit <= 0 is a BadArguments panic before the platform
-   is called; every gridn call that reaches the loop ([effective cur l]) has a
-   unit that is not <= 0 (positive, or NaN) *)
-Theorem C19_gridn_nonpositive_unit_rejected : forall (l : list cmd) (u : PrimFloat.float) (c : str),
-  (PrimFloat.leb u PrimFloat.zero = true -> wrapper_accepts cur (CGridn u c) = false) /\
-  (In (CGridn u c) (effective cur l) -> PrimFloat.leb u PrimFloat.zero = false).
+(* ---- gridn: termination ---- *)
+(* With the bound (proposed_fixes/C19-gridn-tiny-unit.diff: gridnFunc rejects
+   units below minGridUnit = 0.01 and NaN; Gridn counts its rounds with an
+   integer, at most maxGridRounds + 1 of them) termination is UNCONDITIONAL:
+   for every binary64 unit whatsoever and every fuel the loop ends, with at most
+   2 * (maxGridRounds + 1) = 2 * (100/0.01 + 1) lines.  No measure hypothesis. *)
+Theorem C19_gridn_terminates : forall (fx : fixes) (fuel : nat) (unit : PrimFloat.float),
+  fx_gridn_bound fx = true ->
+  exists l, grid_lines fx fuel unit = Some l /\ (List.length l <= 2 * Z.to_nat (grid_max_rounds + 1))%nat.
+Proof. exact gridn_terminates_bounded. Qed.
+Print Assumptions C19_gridn_terminates.
+
+(* … hence a document is written for EVERY history (the `terminates` half of the property) *)
+Theorem C19_never_hangs : forall (fx : fixes) (fuel : nat) (l : list cmd),
+  fx_gridn_bound fx = true -> exists st, run fx fuel pre_init l = Some st.
+Proof. intros fx fuel l H. exact (never_hangs fx fuel l H pre_init). Qed.
+Print Assumptions C19_never_hangs.
+
+(* … and every gridn call that reaches the platform has a unit >= minGridUnit (so not NaN, not tiny) *)
+Theorem C19_gridn_unit_at_least_min : forall (fx : fixes) (l : list cmd) (u : PrimFloat.float) (c : str),
+  fx_gridn_bound fx = true -> In (CGridn u c) (effective fx l) -> PrimFloat.leb grid_min_unit u = true.
+Proof. exact effective_units_at_least_min. Qed.
+Print Assumptions C19_gridn_unit_at_least_min.
+
+(* the check of 292a02f (unit <= 0), for any variant that has it and not yet the bound *)
+Theorem C19_gridn_nonpositive_unit_rejected : forall (fx : fixes) (l : list cmd) (u : PrimFloat.float) (c : str),
+  fx_gridn fx = true -> fx_gridn_bound fx = false ->
+  (PrimFloat.leb u PrimFloat.zero = true -> wrapper_accepts fx (CGridn u c) = false) /\
+  (In (CGridn u c) (effective fx l) -> PrimFloat.leb u PrimFloat.zero = false).
 Proof.
-  intros l u c. split.
-  - exact (gridn_nonpositive_rejected cur u c eq_refl).
-  - exact (effective_units_positive cur l u c eq_refl).
+  intros fx l u c G B. split.
+  - exact (gridn_nonpositive_rejected fx u c G B).
+  - exact (effective_units_positive fx l u c G B).
 Qed.
 Print Assumptions C19_gridn_nonpositive_unit_rejected.
 
-(* Termination of the loop for a unit that reaches it, as far as provable: over
-   the ABSTRACT condition that a natural-number measure of the loop variable
-   strictly decreases in every round entered.  Over binary64 "unit > 0" does not
-   imply it (i + unit = i once unit < ulp(i)/2, e.g. unit = 1e-17 from i = 1 on),
-   so `gridn 0.000000000000000001 "red"` still does not end: that caveat stays. *)
-Theorem C19_gridn_terminates_partial : forall (unit : PrimFloat.float) (m : PrimFloat.float -> nat),
+(* ---- gridn: the accumulating loop `for i := 0.0; i <= 1000; i += unit` (before the bound) ---- *)
+(* all that can be said of it: it ends under the ABSTRACT condition that a
+   natural-number measure of the loop variable strictly decreases in every round entered *)
+Theorem C19_gridn_terminates_partial_before_fix : forall (unit : PrimFloat.float) (m : PrimFloat.float -> nat),
   (forall i, PrimFloat.leb i grid_bound = true -> (m (fadd i (tx unit)) < m i)%nat) ->
-  exists fuel l, grid_lines fuel unit = Some l.
+  exists fuel l, old_loop fuel unit = Some l.
 Proof. exact gridn_terminates_if_measure. Qed.
-Print Assumptions C19_gridn_terminates_partial.
+Print Assumptions C19_gridn_terminates_partial_before_fix.
+
+(* "it terminates for every positive unit" is false: with unit 1e-17 (which the
+   check unit <= 0 lets through) the loop variable stalls at 1: 1 + 10*1e-17 = 1
+   in binary64 and 1 <= 1000, so from there the loop never ends, whatever the fuel *)
+(* [float_of_bits 4352464011485697175] is the binary64 number 1e-17 (see C19_refuted_gridn_tiny_unit) *)
+Theorem C19_gridn_stalls_before_fix :
+  fadd PrimFloat.one (tx (float_of_bits 4352464011485697175%Z)) = PrimFloat.one /\
+  (forall fuel cnt, grid_loop fuel PrimFloat.one (tx (float_of_bits 4352464011485697175%Z)) cnt = None).
+Proof.
+  assert (E : fadd PrimFloat.one (tx (float_of_bits 4352464011485697175%Z)) = PrimFloat.one) by (vm_compute; reflexivity).
+  split; [exact E|]. apply grid_loop_stuck; [vm_compute; reflexivity | exact E].
+Qed.
+Print Assumptions C19_gridn_stalls_before_fix.
 
 (* regression (before 292a02f): units 0 and -infinity reached the loop, which
    then never ends, whatever the fuel *)
 Theorem C19_gridn_never_ends_before_fix :
   (forall c, wrapper_accepts none (CGridn PrimFloat.zero c) = true) /\
-  (forall fuel, grid_lines fuel PrimFloat.zero = None) /\
+  (forall fuel, old_loop fuel PrimFloat.zero = None) /\
   (forall c, wrapper_accepts none (CGridn PrimFloat.neg_infinity c) = true) /\
-  (forall fuel, grid_lines fuel PrimFloat.neg_infinity = None).
+  (forall fuel, old_loop fuel PrimFloat.neg_infinity = None).
 Proof.
   split; [reflexivity|]. split; [exact gridn_zero_never_ends|].
   split; [reflexivity | exact gridn_neg_infinity_never_ends].
@@ -132,10 +167,28 @@ Ltac holds := eexists; split; [vm_compute; reflexivity | vm_compute; reflexivity
 
 (* [cur] with exactly one more switch on: what the document would have to show
    if only that deviation were repaired *)
-Definition cur_ellipse : fixes := mkFx true true true false false false.
-Definition cur_text : fixes := mkFx false true true true false false.
-Definition cur_baseline : fixes := mkFx false true true false true false.
-Definition cur_family : fixes := mkFx false true true false false true.
+Definition cur_ellipse : fixes := mkFx true true true (fx_gridn_bound cur) false false false.
+Definition cur_text : fixes := mkFx false true true (fx_gridn_bound cur) true false false.
+Definition cur_baseline : fixes := mkFx false true true (fx_gridn_bound cur) false true false.
+Definition cur_family : fixes := mkFx false true true (fx_gridn_bound cur) false false true.
+(* the code with the unit <= 0 check but without the bound (HEAD until the bound lands) *)
+Definition unbounded : fixes := mkFx false true true false false false false.
+
+(* [cur] says of the gridn bound what the translator found in the source *)
+Example C19_cur_mirrors_source : fx_gridn_bound cur = grid_bound_in_source.
+Proof. reflexivity. Qed.
+
+(* remaining deviation 5 (finding gridn-tiny-unit-does-not-terminate) — `gridn 0.00000000000000001 "red"`:
+   accepted by the check unit <= 0, and the loop stalls (theorem above with the
+   exact literal; here the decimal one); the bound rejects it, as it rejects NaN *)
+Example C19_refuted_gridn_tiny_unit :
+  wrapper_accepts unbounded (CGridn 1e-17 (s_ "red")) = true /\
+  float_of_bits 4352464011485697175%Z = 1e-17%float /\
+  fadd 1 (tx 1e-17) = 1%float /\ old_loop 2000 1e-17 = None /\
+  wrapper_accepts all (CGridn 1e-17 (s_ "red")) = false /\
+  wrapper_accepts all (CGridn nan (s_ "red")) = false /\
+  wrapper_accepts all (CGridn 0.01 (s_ "red")) = true.
+Proof. vm_compute. repeat split; reflexivity. Qed.
 
 (* remaining deviation 1 — `ellipse 50 20 10`: cy = 200 instead of 800 *)
 Definition second_cy (o : option (list fshape)) : float :=
@@ -217,25 +270,28 @@ Proof. split; [vm_compute; reflexivity | holds]. Qed.
 
 Example C19_ex_guarded_hypotheses :
   let l := [CMove 20 0; CRect 10 30; CColor (s_ "red"); CClear (s_ "blue"); CWidth 2; CGridn 50 (s_ "gray"); CStroke (s_ "x"); CLine 1 1] in
-  forallb no_dev l = true /\ shows cur all 100 l.
+  forallb no_dev l = true /\ shows cur (intended (fx_gridn_bound cur)) 100 l.
 Proof. split; [vm_compute; reflexivity | holds]. Qed.
 
 (* the measure hypothesis is satisfiable: gridn (0/0) and gridn (1/0) *)
-Example C19_ex_gridn_nan_terminates : exists fuel l, grid_lines fuel nan = Some l.
+Example C19_ex_gridn_nan_terminates : exists fuel l, old_loop fuel nan = Some l.
 Proof.
   apply (gridn_terminates_if_measure nan (fun x => if PrimFloat.leb x grid_bound then 1 else 0)%nat).
   exact nan_measure.
 Qed.
-Example C19_ex_gridn_infinity_terminates : exists fuel l, grid_lines fuel infinity = Some l.
+Example C19_ex_gridn_infinity_terminates : exists fuel l, old_loop fuel infinity = Some l.
 Proof.
   apply (gridn_terminates_if_measure infinity (fun x => if PrimFloat.leb x grid_bound then 1 else 0)%nat).
   exact infinity_measure.
 Qed.
 
-(* bounded facts (not theorems about all fuel): the usual units end; a tiny positive
-   unit, which the check in force lets through, does not end within 2000 rounds *)
-Example C19_ex_grid_default : exists l, grid_lines 102 10 = Some l /\ List.length l = 22%nat.
-Proof. eexists; split; [vm_compute; reflexivity | vm_compute; reflexivity]. Qed.
-Example C19_ex_grid_tiny_positive_bounded :
-  wrapper_accepts cur (CGridn 1e-17 (s_ "red")) = true /\ grid_lines 2000 1e-17 = None.
-Proof. vm_compute. split; reflexivity. Qed.
+(* bounded facts: both loops draw the same 22 lines for the default grid; the
+   smallest accepted unit 0.01 draws 20002 lines, within the bound 2 * 10001 *)
+Example C19_ex_grid_default :
+  (exists l, old_loop 102 10 = Some l /\ List.length l = 22%nat /\ grid_lines all 0 10 = Some l) /\
+  (exists l, grid_lines all 0 0.01 = Some l /\ Z.of_nat (List.length l) = 20002%Z).
+Proof.
+  split.
+  - eexists; split; [vm_compute; reflexivity | split; vm_compute; reflexivity].
+  - eexists; split; [vm_compute; reflexivity | vm_compute; reflexivity].
+Qed.
